@@ -193,9 +193,12 @@ func doPanic(pv string) {
 // a scratch file for the lifetime of the process (the api package opens the listener itself, much later).
 func freePort() (int, error) {
 	for try := 0; try < 200; try++ {
-		l, err := net.Listen("tcp", "127.0.0.1:0")
+		// a port below the range the kernel hands out to ":0" listeners and outgoing connections, so that no other process
+		// can be given it between this probe and the moment the api module binds it
+		probe := 20000 + int((time.Now().UnixNano()/1000+int64(os.Getpid())*7919+int64(try)*104729)%10000)
+		l, err := net.Listen("tcp", fmt.Sprintf("127.0.0.1:%d", probe))
 		if err != nil {
-			return 0, err
+			continue
 		}
 		p := l.Addr().(*net.TCPAddr).Port
 		_ = l.Close()
